@@ -41,7 +41,11 @@ META = {
                   "tail, loc slices) on hand-picked and seeded source frames with <= 6 rows (cells over {0,1,2,NaN}, duplicate / unsorted "
                   "index labels, empty and all-NaN frames), crossed with EVERY way to cut the frame into <= 3 (thorough: 4) partitions incl. "
                   "empty ones, with unknown divisions, known divisions and from_pandas; index-aligned binary operations, filters, assign, "
-                  "where/mask between two different collections for every pair of partitionings of both operands.  TLC computes the "
+                  "where/mask between two different collections for every pair of partitionings of both operands; two systematic families of "
+                  "two-step programs enumerated completely in the spec: every projection-passthrough operation followed by EVERY list projection "
+                  "in EVERY column order (order judged), and every value-changing operation (fillna, replace, clip, where, mask, astype, isna, "
+                  "assign-overwrite) followed by a filter / Series filter / assign that READS the changed column with constants the changed "
+                  "cells satisfy (a filter pushed below the operation loses exactly those rows).  TLC computes the "
                   "expected table of every case; a seeded sample of the cross product is replayed on dask (all (source, operation) pairs "
                   "covered), every partition computed through its own key, and TLC decides each observation: Series/DataFrame, column "
                   "names and order, dtype classes, index labels, cells and row order.  Seeded pipelines of 2-5 operations on frames of "
@@ -56,7 +60,8 @@ META = {
 COLS = ["rid", "a", "b"]
 CLAUSES = ["Raised", "Kind", "Cols", "Dtypes", "Whole", "NRows", "Index", "Values"]
 JUDGED = ("fam", "inp", "inp2", "layout", "op", "order", "obs")
-INVARIANTS = ["ExpOK", "ElementwiseKeepsIndex", "SelectionIsSubsequence", "HeadAll", "AlignedShape", "LayoutsOK"]
+INVARIANTS = ["ExpOK", "ElementwiseKeepsIndex", "SelectionIsSubsequence", "HeadAll", "AlignedShape", "LayoutsOK", "ProjectionOrder",
+              "FilterAfterSound"]
 
 
 # ----------------------------------------------------------------------------- sources
@@ -392,10 +397,11 @@ def has_index_expr(op):
     return bool(f)
 
 
-def make_items(ctx, tables, enum, per_pair, n_lops, per_apair):
+def make_items(ctx, tables, enum, per_pair, n_lops, per_apair, fam_quota=None):
     """The replay sample: every (source, operation) pair with `per_pair` seeded (layout, mode) choices."""
     rng = ctx.rng
     items = []
+    fam_quota = fam_quota or {"proj-after": (3, 1), "filter-after": (4, 2)}      # family -> (number of sources, layouts per program)
 
     def pick_layout(k, want_known=None):
         lays = enum["layouts"][k]
@@ -403,10 +409,19 @@ def make_items(ctx, tables, enum, per_pair, n_lops, per_apair):
             lays = [l for l in lays if l[1]] or lays
         return rng.choice(lays)
 
+    # the two systematic families (tag) only bite on frames with missing values: they run on those sources, every program on each
+    na_srcs = [k for k in range(1, len(tables) + 1) if len(tables[k - 1]["rows"]) >= 3 and any(NA in r["v"] for r in tables[k - 1]["rows"])]
+    fam_srcs = {"proj-after": set(na_srcs[:fam_quota["proj-after"][0]]), "filter-after": set(na_srcs[:fam_quota["filter-after"][0]])}
     for cc, e in enum["ops"]:
         k = cc["src"]
         T = tables[k - 1]
-        reps = per_pair * (3 if cc["op"]["op"] == "loc" else 1)      # label slices take different paths for known / unknown divisions
+        tag = cc["op"].get("tag")
+        if tag:
+            if k not in fam_srcs[tag]:
+                continue
+            reps = fam_quota[tag][1]
+        else:
+            reps = per_pair * (3 if cc["op"]["op"] == "loc" else 1)      # label slices take different paths for known / unknown divisions
         for j in range(reps):
             mode = ["unknown", "known", "from_pandas", "known"][j % 4] if j < 8 else rng.choice(["unknown", "known", "from_pandas"])
             lay, known, divs = pick_layout(k, mode == "known")
@@ -434,6 +449,23 @@ def make_items(ctx, tables, enum, per_pair, n_lops, per_apair):
             items.append({"fam": "aligned", "src": kl, "src2": kr, "T": tables[kl - 1], "T2": tables[kr - 1], "layout": ll[0], "divs": ll[2],
                           "layout2": lr[0], "divs2": lr[2], "mode": mode, "op": cc["op"], "exp": e, "whole": rng.random() < 0.25})
     return items
+
+
+def pushdown_would_differ(items):
+    """Non-vacuity of the family "filter-after": the number of replayed cases in which evaluating the filter BEFORE the
+    value-changing step (what a wrong push-down computes) gives another pandas result than the program itself."""
+    n, seen = 0, {}
+    for it in items:
+        op = it["op"]
+        if op.get("tag") != "filter-after" or op["op"] != "seq" or op["second"]["op"] != "filter":
+            continue
+        key = json.dumps([it["src"], op], sort_keys=True)
+        if key not in seen:
+            swapped = {"op": "seq", "first": op["second"], "second": op["first"]}
+            a, b = pandas_reference(it["T"], [], op), pandas_reference(it["T"], [], swapped)
+            seen[key] = "raised" in b or "raised" in a or not same_table(a, b)
+        n += seen[key]
+    return n
 
 
 def item_key(item):
@@ -671,7 +703,10 @@ def run(ctx):
     nlay = sum(len(v) for v in enum["layouts"].values())
     ctx.extra["cases_enumerated_by_tlc"] = {"operations_on_sources": len(enum["ops"]), "layout_dependent": len(enum["lops"]),
                                             "layouts": nlay, "aligned": len(enum["aligned"])}
-    items = make_items(ctx, tables, enum, per_pair=ctx.pick(2, 16), n_lops=ctx.pick(250, 6000), per_apair=ctx.pick(5, 80))
+    items = make_items(ctx, tables, enum, per_pair=ctx.pick(2, 16), n_lops=ctx.pick(250, 6000), per_apair=ctx.pick(5, 80),
+                       fam_quota=ctx.pick({"proj-after": (3, 1), "filter-after": (4, 2)}, {"proj-after": (12, 3), "filter-after": (12, 8)}))
+    ctx.extra["family_cases"] = {t: sum(1 for it in items if it["op"].get("tag") == t) for t in ("proj-after", "filter-after")}
+    ctx.extra["filter_after_cases_where_a_pushed_down_filter_would_differ"] = pushdown_would_differ(items)
     pool = Pool()
     _, recs, skips, guards = check_items(ctx, items, "", pool, decide=False)
     if guards:
